@@ -111,7 +111,15 @@ func opaqueStruct(t types.Type) bool {
 		return false
 	}
 	p := n.Obj().Pkg()
-	return p != nil && p.Path() != "github.com/mfcochauxlaberge/jsonapi"
+	if p == nil || p.Path() == "github.com/mfcochauxlaberge/jsonapi" {
+		return false
+	}
+	// plain data structs of other packages are modelled field by field
+	switch p.Path() + "." + n.Obj().Name() {
+	case "net/url.URL":
+		return false
+	}
+	return true
 }
 
 // sortOf returns the SMT sort used for values of Go type t.
